@@ -131,8 +131,11 @@ CLAIMED["C04"] = dict(
           "peptide of their own) survive unchanged; remnants = former group-mates that kept nothing; placeholders exist exactly for "
           "completely absorbed groups and carry the marker that keeps them out of the report; no unidentified group => plain subset "
           "grouping; the rescue cutoff is 10^-(lowest score among the first-pass rows with q < threshold, among all rows when none) "
-          "and the threshold reaches the result of the whole inference function only through it. PARTIAL: 'merged iff inseparable' and 'only within a connected component' are decided by the exact "
-          "correspondence plus a brute-force monitor of all C04 clauses on the implementation's output, not by a theorem."),
+          "and the threshold reaches the result of the whole inference function only through it; two proteins share a group after the "
+          "rescue only if their first-pass groups are equal or linked by a chain of groups without own peptides whose leading proteins "
+          "share a peptide (never across unconnected groups). PARTIAL: 'merged iff inseparable' speaks about the minimum-cut search "
+          "(the oracle) and is decided by the exact correspondence plus a brute-force monitor of all C04 clauses on the "
+          "implementation's output, not by a theorem."),
     note=COMMON_NOTE + "Min-cut search not modelled (monitored contract). rescue_partition assumes the initial components are "
          "leading proteins of distinct groups (checked on every recorded call). np.power tabulated. Axioms: none.",
     technique="Coq proof for all contract-satisfying splitter oracles + recorded-oracle differential correspondence + brute-force property monitor",
